@@ -47,7 +47,6 @@ import (
 	"testing"
 	"time"
 
-	"github.com/WuKongIM/WuKongIM/pkg/slot/multiraft"
 	"github.com/WuKongIM/WuKongIM/pkg/zzverif/c14model"
 	"github.com/WuKongIM/WuKongIM/pkg/zzverif/crashfs"
 	"github.com/WuKongIM/WuKongIM/pkg/zzverif/ev"
@@ -90,6 +89,14 @@ func c14cSweepStale() {
 			_ = os.RemoveAll(filepath.Join("/dev/shm", n))
 		}
 	}
+}
+
+type c14cQuietLogger struct{} // pebble logs three lines per Open to stderr otherwise
+
+func (c14cQuietLogger) Infof(string, ...interface{})  {}
+func (c14cQuietLogger) Errorf(string, ...interface{}) {}
+func (c14cQuietLogger) Fatalf(f string, a ...interface{}) {
+	panic(fmt.Sprintf("pebble fatal: "+f, a...))
 }
 
 // ---------------------------------------------------------------- snapshot-directory capture
@@ -710,9 +717,16 @@ type c14gInst struct {
 	db      *DB
 	m       [2]*c14model.Scope
 	flushes atomic.Int64
-	broken  error
+	broken  error // infrastructure problem
+	preErr  error // violation raised by the preamble (reported by Check on the root state)
 	sinceRe int
+	steps   int
 }
+
+// c14gFullDepth: pair events are enabled on the first c14gFullDepth steps of a path; after
+// that only single calls (paired with a no-op) and reopen, i.e. "what does the store do
+// after a group commit".
+var c14gFullDepth = 1
 
 func (in *c14gInst) open() error {
 	db, err := Open(filepath.Join(in.dir, "db"), c14cOptions(filepath.Join(in.dir, "snap"), true))
@@ -737,10 +751,15 @@ func c14gNew() mc.Instance {
 	}
 	for _, e := range c14cPreamble { // warm start, itself written as group pairs
 		if _, err := in.pair(c14cStep{e, e}); err != nil {
-			in.broken = fmt.Errorf("preamble %s: %v", e, err)
+			if _, ok := err.(*mc.V); ok {
+				in.preErr = err
+			} else {
+				in.broken = fmt.Errorf("preamble %s: %v", e, err)
+			}
 			return in
 		}
 	}
+	in.steps = 0
 	return in
 }
 
@@ -754,13 +773,16 @@ func (in *c14gInst) Close() {
 func (in *c14gInst) Canon() string { return "" }
 
 func (in *c14gInst) Events() []string {
-	if in.broken != nil {
+	if in.broken != nil || in.preErr != nil {
 		return nil
 	}
 	var out []string
 	for _, a := range append([]string{"-"}, in.m[0].Enabled(c14cAlphabet)...) {
 		for _, b := range append([]string{"-"}, in.m[1].Enabled(c14cAlphabet)...) {
 			if (a == "-" && b == "-") || (c14cIsSnapshotEvent(a) && c14cIsSnapshotEvent(b)) {
+				continue
+			}
+			if in.steps >= c14gFullDepth && a != "-" && b != "-" {
 				continue
 			}
 			out = append(out, a+"||"+b)
@@ -807,6 +829,7 @@ func (in *c14gInst) pair(st c14cStep) (string, error) {
 		}
 	}
 	in.sinceRe++
+	in.steps++
 	return strings.Join(desc, " || "), nil
 }
 
@@ -847,6 +870,9 @@ func (in *c14gInst) Check() error {
 	if in.broken != nil {
 		return mc.Violatef("C14:harness-broken", "harness: %v", in.broken)
 	}
+	if in.preErr != nil {
+		return in.preErr
+	}
 	for si := 0; si < 2; si++ {
 		o := c14model.Observe(context.Background(), in.db.For(c14cScopes[si]), in.m[si].Last()+2)
 		if d := in.m[si].Diffs(o); len(d) > 0 {
@@ -858,17 +884,36 @@ func (in *c14gInst) Check() error {
 
 // ---------------------------------------------------------------- test
 
-func TestVerifC14Crash(t *testing.T) {
+// VerifC14OpenPart is set by the black-box half of the check (package raftlog_test, file
+// c14_open_test.go) so that both halves run in one test binary and write one result.
+var VerifC14OpenPart func(r *ev.R)
+
+func TestVerifC14(t *testing.T) {
 	r := ev.Start(t, "C14")
 	defer r.Finish()
 	c14cSweepStale()
+	rf := r.Replay()
+	if VerifC14OpenPart == nil {
+		r.HarnessError("open part not linked in")
+		return
+	}
+	// open part first: a defect that needs no crash gets the shortest counterexample
+	if rf == nil || strings.HasPrefix(rf.System, "open-") {
+		VerifC14OpenPart(r)
+	}
+	if (rf == nil && r.ViolationCount() == 0) || (rf != nil && !strings.HasPrefix(rf.System, "open-")) {
+		c14cCrashPart(r)
+	}
+}
+
+func c14cCrashPart(r *ev.R) {
 
 	router := crashfs.NewRouter()
 	cache := pebble.NewCache(4 << 20)
 	defer cache.Unref()
 	VerifFS = router
 	// tuning only: pebble callocs its memtable arena and block cache on every Open
-	VerifTweak = func(o *pebble.Options) { o.MemTableSize = 64 << 10; o.Cache = cache }
+	VerifTweak = func(o *pebble.Options) { o.MemTableSize = 64 << 10; o.Cache = cache; o.Logger = c14cQuietLogger{} }
 	defer func() { VerifFS, VerifTweak = nil, nil }()
 	restore := c14cInstallChunkHook()
 	defer restore()
@@ -920,15 +965,17 @@ func TestVerifC14Crash(t *testing.T) {
 		"every history of exactly d calls (the longest ones - 2 calls quick, 3 thorough - start on scope A); every Pebble FS mutation + snapshot-directory seam is a crash point; every image (kill and power) reopened and compared with the model after j calls, acked<=j<=started, then the lost call re-issued")
 
 	if r.ViolationCount() == 0 {
-		res := mc.Run(r, mc.System{Name: "group-open", New: c14gNew, MaxDepth: ev.Pick(r, 1, 2), Workers: 8,
-			Bounds: map[string]any{"alphabet": c14cAlphabet, "pairs": "(a,b), a in enabled(A)+none, b in enabled(B)+none, not both none", "start": c14cPreamble, "WriteBatchMaxItems": 2},
+		c14gFullDepth = ev.Pick(r, 1, 2)
+		res := mc.Run(r, mc.System{Name: "group-open", New: c14gNew, MaxDepth: 2, Workers: 8,
+			Bounds: map[string]any{"alphabet": c14cAlphabet, "pairs": "(a,b), a in enabled(A)+none, b in enabled(B)+none, not both none, not both snapshot saves", "pair_steps": c14gFullDepth, "then": "single calls (paired with a no-op on a private scope) and reopen", "start": c14cPreamble, "WriteBatchMaxItems": 2},
 			Note:   "two goroutines submit one call each on different scopes; the write worker commits them as one batch; final state compared"})
 		_ = res
 		r.Count("group_pairs_submitted", c14gPairs.Load())
 		r.Count("group_pairs_committed_as_one_batch", c14gGrouped.Load())
 		r.Count("group_pairs_not_one_batch", c14gSplit.Load())
 		if r.Replay() == nil && r.ViolationCount() == 0 {
-			r.Guard("group_pairs_were_one_physical_commit", c14gGrouped.Load() > 0 && c14gSplit.Load() == 0, "%d of %d concurrent pairs were committed by one batch (%d were not)", c14gGrouped.Load(), c14gPairs.Load(), c14gSplit.Load())
+			// a pair is split only if one goroutine is delayed for the whole 60 s window (host overload); the oracle does not depend on it
+			r.Guard("group_pairs_were_one_physical_commit", c14gGrouped.Load() > 0 && c14gSplit.Load()*10 <= c14gPairs.Load(), "%d of %d concurrent pairs were committed by one batch (%d were not)", c14gGrouped.Load(), c14gPairs.Load(), c14gSplit.Load())
 		}
 	}
 
@@ -952,5 +999,4 @@ func TestVerifC14Crash(t *testing.T) {
 			map[string]any{"depth": 1, "alphabet": c14cAlphabet, "starts": ev.Pick(r, []string{"warm (preamble written as group pairs)"}, []string{"warm", "empty", "warm-reopened"}), "steps": ev.Pick(r, "pairs", "pairs and single calls (paired with a no-op on a private scope)"), "WriteBatchMaxItems": 2, "modes": []string{"kill", "power"}},
 			"concurrent pairs on crashfs; per-scope bound acked_s<=j_s<=started_s")
 	}
-	_ = multiraft.PersistentState{}
 }
